@@ -2,6 +2,7 @@ package main
 
 import (
 	"go/types"
+	"strings"
 
 	"golang.org/x/tools/go/ssa"
 )
@@ -11,9 +12,40 @@ import (
 // *int*/[]byte/*[]byte. Anything else is unsupported (inconclusive), never guessed.
 func init() {
 	intrinsics["encoding/binary.Read"] = binaryRead
+	// io.ReadFull(r, buf) on the same readers: the same model with (n, err) as result; on any
+	// other reader the real io.ReadFull is executed
+	intrinsics["io.ReadFull"] = func(ex *Exec, st *State, fv FuncV, args []Value, res ssa.Value, at ssa.Instruction) bool {
+		rd, ok := args[0].(IfaceV)
+		if ok && rd.t != nil {
+			ts := rd.t.String()
+			if ts == "*bytes.Reader" || strings.HasSuffix(ts, ".verifCountReader") {
+				buf := args[1].(SliceV)
+				bt := types.NewSlice(types.Typ[types.Uint8])
+				return binaryReadImpl(ex, st, []Value{args[0], IfaceV{t: bigEndianT(ex), v: StructV{}}, IfaceV{t: bt, v: buf}}, res, at, true)
+			}
+		}
+		return ex.enter(st, fv, args, res, at)
+	}
+}
+
+// bigEndianT is the type of binary.BigEndian (needed to reuse the model for io.ReadFull).
+func bigEndianT(ex *Exec) types.Type {
+	for _, p := range ex.prog.AllPackages() {
+		if p.Pkg.Path() == "encoding/binary" {
+			if o := p.Pkg.Scope().Lookup("bigEndian"); o != nil {
+				return o.Type()
+			}
+		}
+	}
+	fail("encoding/binary is not loaded")
+	return nil
 }
 
 func binaryRead(ex *Exec, st *State, fv FuncV, args []Value, res ssa.Value, at ssa.Instruction) bool {
+	return binaryReadImpl(ex, st, args, res, at, false)
+}
+
+func binaryReadImpl(ex *Exec, st *State, args []Value, res ssa.Value, at ssa.Instruction, withN bool) bool {
 	rd, ok := args[0].(IfaceV)
 	if !ok || rd.t == nil {
 		ex.check(st, tTrue, "panic", "binary.Read on nil reader", at)
@@ -76,6 +108,17 @@ func binaryRead(ex *Exec, st *State, fv FuncV, args []Value, res ssa.Value, at s
 			dstSlice = st.load(target).(SliceV)
 			n = dstSlice.len
 			isSlice = true
+		} else if ar, ok := dt.Elem().Underlying().(*types.Array); ok {
+			// *[N]byte: the array's octets, like a slice over it
+			if w, _, ok := intInfo(ar.Elem()); !ok || w != 8 {
+				fail("binary.Read into %s", data.t)
+			}
+			if target.obj == 0 {
+				fail("binary.Read into nil pointer")
+			}
+			dstSlice = SliceV{obj: target.obj, path: target.path, off: u64(0), len: u64(ar.Len()), cap: u64(ar.Len())}
+			n = dstSlice.len
+			isSlice = true
 		} else {
 			fail("binary.Read into %s", data.t)
 		}
@@ -106,9 +149,16 @@ func binaryRead(ex *Exec, st *State, fv FuncV, args []Value, res ssa.Value, at s
 		}
 		st.store(rp, StructV{f: nf})
 	}
+	ret := func(st *State, k *Term, e Value) {
+		if withN {
+			setRes(st, res, TupleV{k, e})
+		} else {
+			setRes(st, res, e)
+		}
+	}
 	alts := []alt{
-		{zero, func(st *State) { setRes(st, res, IfaceV{}) }},
-		{tAnd(tNot(zero), atEnd), func(st *State) { setRes(st, res, ex.opaqueErr("io.EOF")) }},
+		{zero, func(st *State) { ret(st, u64(0), IfaceV{}) }},
+		{tAnd(tNot(zero), atEnd), func(st *State) { ret(st, u64(0), ex.opaqueErr("io.EOF")) }},
 		{tAnd(tNot(zero), short), func(st *State) {
 			// io.ReadFull consumed what was there (and, for slices, stored it)
 			if isSlice && dstSlice.obj != 0 {
@@ -120,7 +170,7 @@ func binaryRead(ex *Exec, st *State, fv FuncV, args []Value, res ssa.Value, at s
 			}
 			setPos(st, s.len)
 			count(st, rem)
-			setRes(st, res, ex.opaqueErr("io.ErrUnexpectedEOF"))
+			ret(st, rem, ex.opaqueErr("io.ErrUnexpectedEOF"))
 		}},
 		{tAnd(tNot(zero), okc), func(st *State) {
 			src := st.container(s).(BytesV)
@@ -147,7 +197,7 @@ func binaryRead(ex *Exec, st *State, fv FuncV, args []Value, res ssa.Value, at s
 			}
 			setPos(st, bvBin("bvadd", pos, n))
 			count(st, n)
-			setRes(st, res, IfaceV{})
+			ret(st, n, IfaceV{})
 		}},
 	}
 	return ex.forkAlts(st, alts)
